@@ -50,7 +50,7 @@ def crash_signature(stderr_text, returncode):
         m = re.search(r'ERROR: AddressSanitizer: ([\w-]+)', l)
         if m:
             kind = 'asan-' + m.group(1); start = i; break
-        m = re.search(r'WARNING: ThreadSanitizer: ([\w -]+?)(?: \(pid|$)', l)
+        m = re.search(r'WARNING: ThreadSanitizer: ([\w -]+?)(?: \(|$)', l)
         if m:
             kind = 'tsan-' + m.group(1).strip().replace(' ', '-'); start = i; break
         m = re.search(r'ERROR: LeakSanitizer: detected memory leaks', l)
